@@ -6,7 +6,7 @@ for r in $d/r*/; do
   git -C /repo worktree add -q --detach $wt HEAD || exit 3
   if ! git -C $wt apply $r/patch.diff 2>/dev/null; then echo "$(basename $(dirname $d))/$(basename $r): patch does not apply"; git -C /repo worktree remove --force $wt; continue; fi
   out=""
-  for p in C01 C02 C03 C04 C05 C06 C07 C09 C10 C11 C12 C13 C14 C15 C16 C17 C18 C19 C20; do
+  for p in C01 C02 C03 C04 C05 C06 C07 C08 C09 C10 C11 C12 C13 C14 C15 C16 C17 C18 C19 C20; do
     (cd /verif && NAUNET_REPO=$wt /venv/bin/python -m sa.check $p --tier quick --no-evidence > /tmp/trybenign.$$.log 2>&1); rc=$?
     if [ $rc -ne 0 ]; then out="$out $p:$rc"; cp /tmp/trybenign.$$.log /tmp/scratch/benign_$(basename $(dirname $d))_$(basename $r)_$p.log; fi
   done
